@@ -254,14 +254,14 @@ Proof.
     + set (e2 := set_wakeup (adjust_process_count e) true).
       assert (Wk : wakeup e2 = true) by (subst e2; pj; reflexivity).
       destruct (mgr e2) eqn:Hm; pj; try (intros _ _; right; exact Wk); try (intros X; discriminate).
-  - destruct m; try exact H. destruct (mgr e) eqn:Hm; try (rewrite Hm; exact H).
+  - destruct m; try exact H. destruct (mgr e) eqn:Hm; cbn [ex caller mx LokyLock.watch]; rewrite ?Hm; try exact H.
     cbn [ex mx LokyLock.watch]. intros _ _. left. auto.
   - unfold fwake. cbn [ex caller mx LokyLock.watch].
-    destruct m; try exact H. destruct (mgr e) eqn:Hm; try (rewrite Hm; exact H).
+    destruct m; try exact H. destruct (mgr e) eqn:Hm; cbn [ex caller mx LokyLock.watch]; rewrite ?Hm; try exact H.
     destruct (resq e) as [|msg rest].
     + destruct (wakeup e) eqn:Hw.
       * cbn [ex mx]. intros X. exfalso. exact (after_wait_leaves_wait _ _ X).
-      * destruct (dead_in w e); cbn [ex mx LokyLock.watch]; [intros _ X; discriminate | rewrite Hm; exact H].
+      * destruct (dead_in w e); cbn [ex mx LokyLock.watch]; [intros _ X; discriminate | rewrite Hm, Hw; exact H].
     + destruct msg; cbn [ex mx LokyLock.watch];
         try (intros X; exfalso; exact (after_wait_leaves_wait _ _ X));
         try (intros _ X; discriminate).
@@ -270,8 +270,8 @@ Proof.
   - destruct m; try exact H. cbn [ex mx]. intros X. exfalso. exact (terminate_broken_leaves_wait _ _ X).
   - unfold lock_free. cbn [caller]. destruct cp; try exact H. cbn [ex mx LokyLock.watch].
     destruct (shutdown_flag_frame k e) as (_ & P & M & Wk). rewrite M, P. intros Hm _. right. apply Wk. exact Hm.
-  - destruct (is_worker_event ev0) eqn:Hev; [|exact H]. cbn [ex mx LokyLock.watch].
-    destruct (worker_frame e ev0 Hev) as (P & Wk & M & _). rewrite P, Wk, M. exact H.
+  - destruct (is_worker_event ev) eqn:Hev; [|exact H]. cbn [ex mx LokyLock.watch].
+    destruct (worker_frame e ev Hev) as (P & Wk & M & _). rewrite P, Wk, M. exact H.
 Qed.
 
 Lemma FW_run : forall c evs st, rewake c = true -> FW st -> FW (frun c st evs).
@@ -313,4 +313,4 @@ Lemma before_F38_refuted :
    fstep before_F38 old FWake = old) /\                                           (* blocked for ever *)
   (wakeup (ex new) = true /\
    mx (frun the_code new [FWake; FFeed; FWake]) = MBreak1 TerminatedWorkerError).  (* fixed: re-woken, noticed *)
-Proof. vm_compute. repeat split; try reflexivity. right; left; reflexivity. Qed.
+Proof. vm_compute. repeat split; try reflexivity. left; reflexivity. Qed.
